@@ -7,7 +7,6 @@ import KinModel.Lemmas.C06
 import KinModel.Lemmas.C06Text
 import KinModel.Lemmas.C06Dflt
 import KinModel.Gen.BodyDecoders
-import KinModel.Gen.BodyEncoders
 import KinModel.Gen.MediaTypeMatch
 namespace KinModel.Body
 
@@ -1084,21 +1083,6 @@ the schema is composition-free and every injectable default conforms to its own 
 is the one of the COMPLETED value — that is what C13 demands ("the resulting request validates again") — and lies
 outside the request-side reading of C06: witnesses below, compared model-vs-implementation only in the run. -/
 
-/-- the translator could read the encoder registry of the source -/
-theorem encoder_table_recognised :
-    Gen.bodyEncoders.all (fun r => match r with | .unrecognised _ => false | .reg _ _ => true) = true := by decide
-
-/-- a body encoder exists for exactly the media types that `JSONBodyDecoder` decodes — entry by entry, in the
-order of the source — and all of them are `json.Marshal`: this is `hasEncoder` -/
-theorem encoders_are_the_json_decoders :
-    Gen.bodyEncoders = (registrySrc.filter fun kd => kd.2 == "JSONBodyDecoder").map fun kd => .reg kd.1 "json.Marshal" := by
-  decide
-
-theorem hasEncoder_is_table :
-    registry.all (fun kd => hasEncoder (some kd.2) ==
-      Gen.bodyEncoders.any (fun r => match r with | .reg k _ => k.toList == kd.1 | .unrecognised _ => false)) = true := by
-  decide
-
 /-- **SkipSettingDefaults = true.** Without `DefaultsSet` the value-threading validator `visD` is `visit`: same
 verdict, value untouched — every schema (with or without `default` keywords), every value -/
 theorem skipDefaults_is_visit (exro : Bool) (s : RS) (v : V) (hs : s.wf = true) (hv : v.wf = true) :
@@ -1315,21 +1299,20 @@ example :
     visit false s (.obj [(['o'], .obj [])]) = true ∧
     (visD true false s (.obj [])).isSome = false ∧ visit false s (.obj []) = false := by decide
 
-/- Full-strength statement (does NOT hold of the code, see `witness_noBodyEncoder` and `default_decides_witnesses`):
-     (validateRequestBodyD reg rb ct b exro ds).isOk = true ↔ Accept reg rb ct b exro  -/
+/- The statement without `hn` does NOT hold of the code (see `default_decides_witnesses`, `default_counts_witnesses`):
+where a default decides the verdict the reading is the two-phase one (`accept_iff_completed_partial`). -/
 
-/-- **C06, main theorem with the option SkipSettingDefaults.** Outside the exclusion classes FormFieldUnparsable
-(#20) and NoBodyEncoder (F-C06-4), inside the model, and where defaults are neutral for the decoded value
-(`caseNeutral`: defaults skipped, or nothing fires, or composition-free with harmless defaults), request-body
-validation accepts exactly when the property says so. -/
+/-- **C06, main theorem with the option SkipSettingDefaults.** Outside the one exclusion class FormFieldUnparsable
+(#20), inside the model, and where defaults are neutral for the decoded value (`caseNeutral`: defaults skipped, or
+nothing fires, or composition-free with harmless defaults), request-body validation accepts exactly when the
+property says so — for every media type, with or without a body encoder (F-C06-4 repaired, 4a27f6e). -/
 theorem accept_iff_partial_D (reg : List (Str × DecK)) (rb : ReqBody) (ct : Str) (b : BodyIn) (exro ds : Bool)
     (hmod : validateRequestBodyD reg rb ct b exro ds ≠ .panic ∧ validateRequestBodyD reg rb ct b exro ds ≠ .unmodelled)
     (hwf : formEncsWF reg rb ct b = true)
     (h1 : exclFormUnparsable reg rb ct b = false)
-    (h2 : exclNoBodyEncoder reg rb ct b exro ds = false)
     (hn : caseNeutral reg rb ct b exro ds = true) (hw : caseWF reg rb ct b = true) :
     (validateRequestBodyD reg rb ct b exro ds).isOk = true ↔ Accept reg rb ct b exro := by
-  have e := validateRequestBodyD_eq reg rb ct b exro ds hmod.2 h2 hn hw
+  have e := validateRequestBodyD_eq reg rb ct b exro ds hmod.2 hn hw
   rw [e] at hmod ⊢
   exact accept_iff_partial reg rb ct b exro hmod hwf h1
 
@@ -1349,13 +1332,12 @@ theorem harmless_completion (exro : Bool) (s : RS) (v : V) (hc : compFree s = tr
   exact defaults_neutral exro s v hs hv (by simp [defaultsNeutral, hc, hh])
 
 /-- **C06 with default-setting ON, two-phase reading, whole decision.** For a composition-free selected schema,
-outside FormFieldUnparsable and NoBodyEncoder and inside the model: request-body validation accepts exactly when
+outside FormFieldUnparsable and inside the model: request-body validation accepts exactly when
 the value the body encodes, completed by the declared defaults, satisfies the schema read as a request. -/
 theorem accept_iff_completed_partial (reg : List (Str × DecK)) (rb : ReqBody) (ct : Str) (b : BodyIn) (exro : Bool)
     (hmod : validateRequestBodyD reg rb ct b exro true ≠ .panic ∧ validateRequestBodyD reg rb ct b exro true ≠ .unmodelled)
     (hwf : formEncsWF reg rb ct b = true)
     (h1 : exclFormUnparsable reg rb ct b = false)
-    (h2 : exclNoBodyEncoder reg rb ct b exro true = false)
     (hcf : caseCompFree reg rb ct b = true) (hw : caseWF reg rb ct b = true) :
     (validateRequestBodyD reg rb ct b exro true).isOk = true ↔ AcceptD reg rb ct b exro true := by
   unfold AcceptD
@@ -1374,7 +1356,7 @@ theorem accept_iff_completed_partial (reg : List (Str × DecK)) (rb : ReqBody) (
           have hout : validateRequestBodyD reg rb ct b exro true =
               (match decodeBody reg ct s mt.encs b with
                | .err => .decodeErr | .panic => .panic | .unmodelled => .unmodelled
-               | .val v => validateValue (hasEncoder (lookup (base ct) reg)) exro true s v) := by
+               | .val v => validateValue exro true s v) := by
             simp only [validateRequestBodyD, ht, hc, hs, hn, if_false]
             cases decodeBody reg ct s mt.encs b <;> rfl
           rw [hout] at hmod ⊢
@@ -1389,20 +1371,17 @@ theorem accept_iff_completed_partial (reg : List (Str × DecK)) (rb : ReqBody) (
             have hdv := decodedValue_of_val reg rb ct b mt s v ht hc hs hn hdec
             unfold caseCompFree at hcf
             unfold caseWF at hw
-            unfold exclNoBodyEncoder at h2
-            simp only [hdv, Bool.true_and, Bool.and_eq_true] at hcf hw h2
+            simp only [hdv, Bool.and_eq_true] at hcf hw
             have hvis := completed_reading exro s v hcf hw.1 hw.2
             simp only [hdec] at hmod ⊢
             unfold validateValue at hmod ⊢
             simp only [Bool.not_true, Bool.false_eq_true, if_false] at hmod ⊢
-            by_cases hu : (dfltUnderNot s || (!hasEncoder (lookup (base ct) reg) && nestedDflt s && firesD exro s v)) = true
+            by_cases hu : dfltUnderNot s = true
             · simp [hu] at hmod
             · simp only [hu, Bool.false_eq_true, if_false]
-              have h2' : (firesD exro s v && !hasEncoder (lookup (base ct) reg)) = false := by
-                cases hf : firesD exro s v <;> cases he : hasEncoder (lookup (base ct) reg) <;> simp_all
               refine Iff.trans (b := SatReq exro s (complete exro s v)) ?_ ?_
               · rw [← hvis]
-                cases visD true exro s v <;> simp [Outcome.isOk, h2']
+                cases visD true exro s v <;> simp [Outcome.isOk]
               · constructor
                 · intro hsat
                   exact Or.inr ⟨ht, Or.inr ⟨mt, rfl, Or.inr ⟨s, v, hn, hsv, by simpa using hsat⟩⟩⟩
@@ -1454,21 +1433,20 @@ theorem acceptDB_iff (reg : List (Str × DecK)) (rb : ReqBody) (ct : Str) (b : B
               · cases hmt'; rw [hn] at hs'; cases hs'; rw [hd] at hv'; cases hv'
                 exact (satReqB_iff exro s _).mpr hsat
 
-/-- F-C06-4 (NoBodyEncoder): `b=x` against `{a: integer default 1, b: string}` sent as
-application/x-www-form-urlencoded — the value `{b: "x"}` satisfies the schema, the property accepts; with
-default-setting on the model (as the code) answers "rewriting failed"; with defaults skipped it accepts; the same
-body as JSON is accepted in both settings -/
-theorem witness_noBodyEncoder :
+/-- regression of the repaired finding F-C06-4 (NoBodyEncoder, 4a27f6e): `b=x` against
+`{a: integer default 1, b: string}` sent as application/x-www-form-urlencoded — the value `{b: "x"}` satisfies the
+schema; it is accepted with default-setting on (a default fires, no encoder exists for the media type) and with
+defaults skipped, exactly as the same body sent as JSON; the hypotheses of the main theorem hold -/
+theorem regression_noBodyEncoder :
     let s := exObjD [(exStr "a", exIntD false false (some (.int 1))), (exStr "b", exString)] []
     let rb : ReqBody := ⟨true, [(exForm, ⟨some s, []⟩)]⟩
     let b := exBody "b=x" none (some [(exStr "b", [exStr "x"])])
     let rbJ : ReqBody := ⟨true, [(exStr "application/json", ⟨some s, []⟩)]⟩
     let bJ := exBody "{\"b\":\"x\"}" (some (.obj [(exStr "b", .str (exStr "x"))])) none
-    exclNoBodyEncoder registry rb exForm b false true = true ∧
-    validateRequestBodyD registry rb exForm b false true = .rewriteErr ∧ acceptB registry rb exForm b false = true ∧
+    validateRequestBodyD registry rb exForm b false true = .ok ∧ acceptB registry rb exForm b false = true ∧
+    caseNeutral registry rb exForm b false true = true ∧ caseWF registry rb exForm b = true ∧
     validateRequestBodyD registry rb exForm b false false = .ok ∧
-    validateRequestBodyD registry rbJ (exStr "application/json") bJ false true = .ok ∧
-    exclNoBodyEncoder registry rbJ (exStr "application/json") bJ false true = false := by decide
+    validateRequestBodyD registry rbJ (exStr "application/json") bJ false true = .ok := by decide
 
 /-- non-vacuity of `accept_iff_partial_D` with default-setting ON: every hypothesis holds, a default fires, both verdicts -/
 example :
@@ -1478,7 +1456,6 @@ example :
     let good := exBody "{\"b\":\"x\"}" (some (.obj [(exStr "b", .str (exStr "x"))])) none
     let bad := exBody "{}" (some (.obj [])) none
     caseNeutral registry rb ct good false true = true ∧ caseWF registry rb ct good = true ∧
-    exclNoBodyEncoder registry rb ct good false true = false ∧
     validateRequestBodyD registry rb ct good false true = .ok ∧ acceptB registry rb ct good false = true ∧
     caseNeutral registry rb ct bad false true = true ∧
     validateRequestBodyD registry rb ct bad false true = .schemaErr ∧ acceptB registry rb ct bad false = false := by decide
